@@ -178,6 +178,12 @@ def _corpus(thorough):
                 C.append({"k": "bodies", "a": fa, "b": fb, "pl": pl, "ob": ob, "g": 0})
     for st in c17.enumerate_states("quick", 0)[0][::(1 if thorough else 4)]:
         C.append({"k": "mesh", "f": st["f"], "p": st["p"]})
+    # colliders whose pose was set through update_pose (array layouts differ from the constructor path)
+    for t in sc.TYPES:
+        if t == "hull":
+            continue
+        for o2, f2, m in ((5, 3, 0), (24, 2, 0), (13, 0, 1)) + (((28, 1, 0), (9, 3, 1), (0, 2, 0)) if thorough else ()):
+            C.append({"k": "updated", "t": t, "s": 0, "o": o2, "f": f2, "m": m})
     # jitted utilities of utils.py / geometry.py / minkowski.py that no other family calls directly
     for fn in UTIL_FUNCS:
         for i in range(UTIL_N if thorough else 6):
@@ -298,6 +304,17 @@ def execute(call):
         for j, B in enumerate(ps.alph(kb)):
             tol = 5e-3 if "circle" in name else 1e-9
             out["%s:%d" % (name, j)] = ("prim", _try(lambda: ps.call(name, A, B)[0]), max(1.0, ps.scale_L(A, B)) * (tol / 1e-9))
+    elif k == "updated":
+        def run_updated():
+            mv = sc.margin_value(call["t"], call["s"], call["m"])
+            col, _ = sc.build(call["t"], call["s"], 0, np.zeros(3), mv, want_ref=False)
+            stack = np.ascontiguousarray(np.stack([sc.pose(3, sc.OFFSETS[1]), sc.pose(call["o"], sc.OFFSETS[call["f"]])]))
+            col.update_pose(stack[1])          # item of a pose stack, as a trajectory would pass it
+            out_ = [np.asarray(col.support_function(np.ascontiguousarray(sc.DIRS[i])), dtype=float) for i in (0, 3, 14, 27)]
+            out_.append(np.asarray(col.aabb(), dtype=float))
+            out_.append(np.asarray(col.center(), dtype=float))
+            return out_
+        out["updated"] = ("closed", _try(run_updated))
     elif k == "util":
         out[call["fn"]] = ("closed", _try(lambda: util_call(call["fn"], call["i"])))
     elif k == "contain":
